@@ -171,6 +171,7 @@ type sim struct {
 	order func(n int) int
 	// every (client, error) that terminated a connection
 	terminated map[*simClient]error
+	cheap      bool // inexact barrier (no goroutine dump)
 }
 
 func newSim(n int, order func(int) int) *sim {
@@ -194,6 +195,13 @@ var broadcastCreators = []string{
 // barrier waits until no goroutine spawned by galene for a notification
 // broadcast is still running (exact: it inspects the goroutine dump).
 func (s *sim) barrier() {
+	if s.cheap {
+		// model-free machines only need the broadcast goroutines to have had a chance to run
+		for i := 0; i < 50 && runtime.NumGoroutine() > s.base; i++ {
+			runtime.Gosched()
+		}
+		return
+	}
 	buf := make([]byte, 1<<20)
 	for i := 0; i < 200000; i++ {
 		n := runtime.Stack(buf, true)
